@@ -148,6 +148,7 @@ type RunReport struct {
 	ResultHash    uint64       `json:"result_hash"` // hash over all simulation-phase results (determinism self-test)
 	Nontrivial    bool         `json:"nontrivial"`
 	SinkFaults    int          `json:"sink_faults,omitempty"`
+	DetChecked    int          `json:"det_checked,omitempty"` // calls re-run alone under a second map order
 	LinOps        int          `json:"lin_ops,omitempty"`
 	LinConcurrent int          `json:"lin_concurrent_pairs,omitempty"`
 }
